@@ -90,6 +90,9 @@ type frame struct {
 	// radii, or one flattening with different a), so datumTransform has only `a` to tell them apart
 	sameEs bool
 	rf     float64 // 0 = spheres
+	// the mirror image: one semi-major axis for the whole chain, a flattening of its own per SR, so
+	// datumTransform has only `es` to tell the ellipsoids apart
+	fixA float64
 }
 
 func ellpsClause(r *vproto.Rng) string {
@@ -162,6 +165,9 @@ func datumClause(r *vproto.Rng, f frame) string {
 	if f.sameEs {
 		a := rd(6360000+float64(r.Intn(30))*1000, 0)
 		d := []string{"WGS84", "NAD83", "nad83", "wgs84"}[r.Intn(4)]
+		if f.fixA != 0 {
+			return "+datum=" + d + " +a=" + ff(f.fixA, 0) + " +rf=" + ff(rd(290+r.Float()*20, 6), 6)
+		}
 		if f.rf == 0 {
 			return "+datum=" + d + " +a=" + ff(a, 0) + " +b=" + ff(a, 0)
 		}
@@ -592,6 +598,9 @@ func corpus(w *bufio.Writer) {
 	// WGS84-type datums (no shift) on explicit ellipsoids of equal eccentricity and different size
 	put(trLine([]string{"+proj=longlat +datum=WGS84 +a=6370000 +b=6370000", "+proj=longlat +datum=NAD83 +a=6371000 +b=6371000"}, 5, 50))
 	put(trLine([]string{"+proj=longlat +datum=WGS84 +a=6370000 +rf=298.25", "+proj=merc +lon_0=3 +datum=WGS84 +a=6379000 +rf=298.25", "+proj=longlat +datum=nad83 +a=6371000 +rf=298.25"}, 5, 50))
+	// ... and of equal size and different eccentricity
+	put(trLine([]string{"+proj=longlat +datum=WGS84 +a=6378137 +rf=298.25", "+proj=longlat +datum=NAD83 +a=6378137 +rf=300"}, 5, 50))
+	put(trLine([]string{"+proj=longlat +datum=wgs84 +a=6371000 +rf=295.5", "+proj=merc +lon_0=3 +datum=WGS84 +a=6371000 +rf=305.25", "+proj=longlat +datum=nad83 +a=6371000 +b=6371000"}, 5, -40))
 	// twins differing in a flag / a name only
 	put(trLine([]string{wgs, "+proj=utm +zone=33 +datum=WGS84", "+proj=utm +zone=33 +south +datum=WGS84", wgs}, 15, 60))
 	put(trLine([]string{wgs, "+proj=lcc +lat_1=33 +lat_2=45 +lat_0=39 +lon_0=-96 +x_0=0 +y_0=0 +datum=NAD83", "+proj=aea +lat_1=33 +lat_2=45 +lat_0=39 +lon_0=-96 +x_0=0 +y_0=0 +datum=NAD83", "+proj=eqdc +lat_1=33 +lat_2=45 +lat_0=39 +lon_0=-96 +x_0=0 +y_0=0 +datum=NAD83", wgs}, -100, 40))
@@ -818,8 +827,11 @@ func gen(seed uint64, tier string) {
 			f.ellps = ellpsClause(r)
 		} else if r.Intn(16) == 0 {
 			f.sameEs = true
-			if r.Bool() {
+			switch r.Intn(3) {
+			case 0:
 				f.rf = rd(290+r.Float()*20, 6)
+			case 1:
+				f.fixA = rd(6360000+float64(r.Intn(30))*1000, 0)
 			}
 		}
 		pick := func() string {
